@@ -1,3 +1,4 @@
+import EdsSpec.C01
 import EdsSpec.C03
 import EdsSpec.C05
 import EdsSpec.C06
